@@ -68,7 +68,7 @@ PROPS = {}
 NOT_CLAIMED = {}
 
 PROPS['C18'] = {
-    'ops': ['tree'],
+    'ops': ['tree', '@plain tree'],     # also against the library built without its `_merge` feature (what a user gets by default)
     'rule': 'random trees (depth<=6, fan-out<=6, titles from a 9-word alphabet incl. empty/repeated, entries with '
             'absent/byte/protected/non-UTF-8 titles) x 20 (quick) / 50 (thorough) paths; distinct by hash of (tree, paths); '
             'non-trivial = some sibling titles repeat or clash and some path has length >= 2',
@@ -80,7 +80,7 @@ PROPS['C18'] = {
 }
 
 PROPS['C17'] = {
-    'ops': ['history'],
+    'ops': ['history', '@plain history'],
     'rule': 'random sequences (1..14 ops) over real entries: field/tag/colour/auto-type/custom-data/icon/url edits, edits of other time stamps, '
             'direct modification-time edits, history initialisation, externally built items carrying their own (nested) history, commits; '
             '"now" observed by bracketing update_history between two clock reads; content compared through an interned canonical dump. '
@@ -158,7 +158,7 @@ def judge_c19(case, out):
 
 
 PROPS['C19'] = {
-    'ops': ['selftest', 'totp'],
+    'ops': ['selftest', 'totp', '@plain totp'],
     'judge': judge_c19,
     'rule': 'otpauth URIs assembled from components (scheme, raw label, percent-/plus-encoded query pairs in random order with duplicates and '
             'unknown keys; secrets of 0..64 random bytes, also malformed base32; periods/digits/algorithms incl. 0, +5, empty, overflowing, '
@@ -196,7 +196,7 @@ def judge_c20(case, out):
 
 
 PROPS['C20'] = {
-    'ops': ['key'],
+    'ops': ['key', '@plain key'],
     'judge': judge_c20,
     'rule': 'credential sets: password in {absent, empty, ASCII, non-ASCII, trailing/leading blank, NUL, newline} x key file in {absent, 32 raw bytes, '
             '0..200 arbitrary bytes, 64 hex characters as text, XML v1 with 32-byte and other-length payloads and varied layout between elements, '
@@ -334,6 +334,9 @@ def judge_kdbx4(pid):
             o = ex.get('original', {})
             if rparse == 'ok' and (real.get('db_sha256') != o.get('db_sha256') or real.get('config') != o.get('config')):
                 v.append(('SPECFAIL', 'tamper:different-content-accepted:%s' % ex.get('mutation'), ''))
+            # … nor may the decrypt stage alone (Database::get_xml) hand out anything but the original inner XML
+            if rdec == 'ok' and o.get('xml_sha256') and real.get('xml_sha256') != o.get('xml_sha256'):
+                v.append(('SPECFAIL', 'tamper:different-xml-returned-by-get_xml:%s' % ex.get('mutation'), ''))
         if pid == 'C06':
             for stage, r in (('get_xml', rdec), ('parse', rparse)):
                 if isinstance(r, str) and r.startswith('panic:'):
@@ -348,6 +351,20 @@ def judge_legacy(pid):
 
     def judge(case, out):
         op = case.get('op')
+        if op == 'specOnly':
+            # too large for the executable model: the specification alone (the conforming file opens, to the stored XML)
+            v = []
+            if pid == 'C02':
+                real = case['real']
+                ex = case.get('extra', {})
+                rdec = norm_site(real.get('decrypt'))
+                if rdec != 'ok':
+                    v.append(('SPECFAIL', 'kdbx3:conforming-file-rejected:large-block:%s' % rdec, 'blocks %s payload %s' % (ex.get('blocks'), ex.get('payload_len'))))
+                elif real.get('xml_sha256') != ex.get('intended', {}).get('xml_sha256'):
+                    v.append(('SPECFAIL', 'kdbx3:xml-differs-from-stored:large-block', ''))
+                elif norm_site(real.get('parse')) != 'ok':
+                    v.append(('SPECFAIL', 'kdbx3:conforming-file-rejected:large-block:%s' % norm_site(real.get('parse')), ''))
+            return v or [('AGREE', '', '')]
         if op == 'xml':
             return jx(case, out)
         if op == 'kdbx4read':
@@ -430,10 +447,10 @@ PROPS['C05'] = {
     'ops': ['frame-tamper'], 'judge': judge_kdbx4('C05'), 'assumptions': FRAME_ASSUME,
     'rule': 'valid KDBX4 files (single- and multi-block, all outer ciphers, gzip on/off) x mutations {byte substitution in header / header hash / header HMAC / blocks, '
             'truncation at every kind of offset, cut at block boundaries incl. dropping the terminator, appended data, swapped / duplicated / dropped blocks, header edit with the '
-            'SHA-256 recomputed, multi-byte edits}; opened with the correct credentials; oracle: error, or the same database and configuration as the original',
-    'partial': ['"different content" after a strict block-prefix survives only if decrypt/gunzip/XML accept the prefix: that part lives in the dependencies (PrefixRejects hypothesis)'],
-    'level_text': 'Kernel-checked over the faithful model: every accepted block was authenticated under the key of its own index, so accepted data is a prefix of the authenticated '
-                  'blocks; header bytes are authenticated by the header MAC. Validated against the real reader on attacker mutations.',
+            'SHA-256 recomputed, multi-byte edits}; opened with the correct credentials; oracle: Database::open gives an error, or the same database and configuration as the original, and Database::get_xml gives an error, or the same inner XML',
+    'partial': ['the idealisation of HMAC (Unforgeable: what verifies under the key of index i is the block the writer authenticated at index i, for data blocks and for the empty end-of-stream block) is a hypothesis of C05_blocks_prefix / C05_blocks_whole, not a theorem'],
+    'level_text': 'Kernel-checked over the faithful model: every accepted block was authenticated under the key of its own index and the stream ended with an authenticated empty block, so under the HMAC idealisation the accepted data is the whole original data, never a strict prefix (C05_blocks_whole, after the repair of F21); '
+                  'header bytes are authenticated by the header MAC. Validated against the real reader (open and get_xml) on attacker mutations.',
 }
 PROPS['C06'] = {
     'ops': ['frame-fuzz'], 'judge': judge_kdbx4('C06'), 'assumptions': FRAME_ASSUME,
@@ -475,6 +492,9 @@ def judge_xml(pid):
                     v.append(('SPECFAIL', 'c03:large-binary:content-differs', str(shape)))
                 elif r.get('save') != 'ok' and pid == 'C03':
                     v.append(('SPECFAIL', 'c03:large-binary:save-fails', '%s: %s' % (shape, r.get('save'))))
+            if pid == 'C08':
+                for l in r.get('protected_leaks', []):
+                    v.append(('SPECFAIL', 'c08:protected:%s' % l.split(':')[0], '%s: %s' % (shape, l)))
             return v or [('AGREE', '', '')]
         m = out.get('model') or {}
         real = case['real']
